@@ -57,6 +57,22 @@ def body_of(proto, resp):
         return None
 
 
+def diff_class(x, y):
+    """'' or a suffix naming what alone differs between two listed entries (stable part of the tag)"""
+    if x is None or y is None or x[:2] != y[:2]:
+        return ""
+    tx, ty = x[2], y[2]
+    if isinstance(tx, tuple) and isinstance(ty, tuple) and len(tx) == len(ty) == 5:
+        d = [i for i in range(5) if tx[i] != ty[i]]
+        if d == [2]:
+            return ":port-only"
+        if d == [4]:
+            return ":selector-only"
+        if d == [3]:
+            return ":type-only"
+    return ""
+
+
 def run(tier):
     chk = Check("C06", tier)
     chk.proofs(extra_files=["Corr/K06.v"])  # K: Corr file of this property
@@ -118,8 +134,9 @@ def run(tier):
                         chk.violation({"what": "a directory shows different entries in two protocols", "protocol_a": "gopher",
                                        "protocol_b": proto, "selector_latin1": sel, "first_difference_index": k,
                                        "entry_a": repr(a[k]) if k < len(a) else None, "entry_b": repr(b[k]) if k < len(b) else None,
-                                       "abstract_entries": specs[wi]["_ae"], "tree": specs[wi]["tree"]},
-                                      tag=f"listing-differs:{proto}")
+                                       "abstract_entries": specs[wi]["_ae"], "tree": specs[wi]["tree"],
+                                       "server_port": specs[wi].get("server_port", 70)},
+                                      tag=f"listing-differs:{proto}" + diff_class(a[k] if k < len(a) else None, b[k] if k < len(b) else None))
             else:
                 ndocs += 1
                 mimes = {}
@@ -202,6 +219,54 @@ def run(tier):
                                "response_head_latin1": o["out"][:300], "tree": specs[wi]["tree"]},
                               tag=f"listing-differs:{proto}:{'$+' if form.startswith('$') and len(form) > 1 else form}")
 
+    # "!" on a listed local item: the descriptor (+INFO line) of the item itself names the same target
+    # (type, selector, host, port) as the line of the listing that led to it
+    jobs, jmeta = [], []
+    for wi, pages in enumerate(all_pages):
+        wport = specs[wi].get("server_port", 70)
+        reqs, meta = [], []
+        for p in pages:
+            if p["proto"] != "gopher" or p["type"] != "1":
+                continue
+            try:
+                menu = V.parse_gopher_menu(p["out"].encode("latin-1"))
+            except V.Malformed:
+                continue
+            for m in menu:
+                if (m["type"] != "i" and m["host"] == pgsite.SERVER and m["port"] == wport
+                        and not re.match(rb"/?URL:", m["selector"]) and b"\t" not in m["selector"] and len(reqs) < 150):
+                    reqs.append({"data": gen.lat(m["selector"] + b"\t!\r\n"), "tls": False})
+                    meta.append((p["selector"], m))
+        j = {"op": "world", "tree": specs[wi]["tree"], "config": specs[wi]["config"], "requests": reqs}
+        if "server_port" in specs[wi]:
+            j["server_port"] = specs[wi]["server_port"]
+        jobs.append(j)
+        jmeta.append(meta)
+    bres = impl_run_parallel(jobs, chunks=len(jobs))
+    nbang = 0
+    for wi, (r, meta) in enumerate(zip(bres, jmeta)):
+        if not r["ok"]:
+            raise RuntimeError(r["err"] + r.get("tb", ""))
+        for (dsel, m), o in zip(meta, r["res"]["results"]):
+            out = o["out"].encode("latin-1")
+            try:
+                v = V.validate("gopherplus", out)
+                items = V.parse_gopher_menu(pgsite.gplus_info_lines(v["body"])) if v["kind"] == "success" else None
+            except V.Malformed:
+                items = []
+            if items is None:
+                continue   # the listed item cannot be served: C05's business
+            nbang += 1
+            chk.count((wi, dsel, m["selector"], "!"), nontrivial=True)
+            want = (m["type"], m["selector"], m["host"], m["port"])
+            got = [(x["type"], x["selector"], x["host"], x["port"]) for x in items]
+            if got != [want]:
+                found = True
+                chk.violation({"what": "the Gopher+ item descriptor (\"!\") of a listed item names another target than the listing",
+                               "directory_latin1": dsel, "listed": repr(want), "descriptor": repr(got),
+                               "request_latin1": gen.lat(m["selector"] + b"\t!\r\n"), "response_head_latin1": o["out"][:300],
+                               "tree": specs[wi]["tree"]}, tag="item-descriptor-differs:gopherplus:!")
+
     # ---- trailing slash on directory selectors ----
     tree = trees.rich_tree(rng, hostile=True, n_hostile=6)
     dirs = ["", "/dir1", "/dir1/sub", "/odd", "/maps", "/md", "/umn", "/odd/dir with space", "/emptydir"]
@@ -241,6 +306,11 @@ def run(tier):
         n = rng.randrange(1, 9)
         raw = bytes(rng.choice([rng.randrange(33, 127), rng.randrange(128, 256), 0x20]) for _ in range(n)).strip()
         raw = raw.replace(b"\t", b"x")
+        if raw[:1] in (b"+", b"$", b"!"):
+            # in-band ambiguity of the protocol family, not of this server: in a two-field Gopher request a second
+            # field that starts like a Gopher+ command IS a Gopher+ command (Gopher+ 2.3); a Gopher+ client puts the
+            # search string into the second of three fields, where any string is fine
+            raw = b"x" + raw
         if raw:
             queries.append(raw.decode("utf-8", "surrogateescape"))
     reqs, meta = [], []
@@ -282,6 +352,66 @@ def run(tier):
                            "handler_selector": sel, "query": q, "query_bytes_hex": want.decode(), "handler_saw_hex": got.decode() if got else None,
                            "request_latin1": gen.lat(gen.request_bytes(proto, sel, search=q)[0]), "response_latin1": o["out"][:300]},
                           tag=f"query-differs:{proto}:{kind}")
+    # ---- the same over real sockets, the request arriving in pieces ----
+    # A query reaches the handler as the same string however the network cuts the request: in one segment,
+    # cut in the middle, cut after the request line, cut inside what follows the request line, byte by byte.
+    def cuts(data):
+        n = len(data)
+        eol = data.find(b"\r\n") + 2
+        modes = {"whole": [], "halves": [n // 2], "thirds": [n // 3, 2 * n // 3]}
+        if 1 < eol < n:
+            modes["after-line"] = [eol]
+            if n - eol > 1:
+                mid = eol + (n - eol) // 2
+                modes["line+part|rest"] = [mid]
+                modes["line|part|rest"] = [eol, mid]
+        if n <= 64:
+            modes["bytes"] = list(range(1, n))
+        out = {}
+        for k_, pts in modes.items():
+            pts = sorted(set(p_ for p_ in pts if 0 < p_ < n))
+            out[k_] = [data[a_:b_] for a_, b_ in zip([0] + pts, pts + [n])]
+        return out
+
+    lqueries = ["needle", "two words & \"earl grey\" 100% -- steeping", "caf\u00e9 \udcae x", "a+b=c&d?e#f", "x" * 300,
+                "tab-free;semi:colon,comma"] + [q_ for q_ in queries if 0 < len(q_) < 12][-3:]
+    lreqs, lmeta = [], []
+    for sel in ("/echo.pyg", "/q.sh"):
+        for proto in gen.PROTOCOLS:
+            for q in lqueries:
+                data, tls = gen.request_bytes(proto, sel, search=q)
+                for mode, pieces in cuts(data).items():
+                    if sel == "/q.sh" and mode in ("thirds", "halves"):
+                        continue
+                    lreqs.append({"pieces": [gen.lat(x) for x in pieces], "tls": tls, "pause_ms": 2 if mode == "bytes" else 25})
+                    lmeta.append((proto, sel, q, mode, data))
+    nl = 8
+    ljobs = [{"op": "c06_live", "tree": qtree, "config": qcfg, "requests": lreqs[i::nl]} for i in range(nl)]
+    lres = impl_run_parallel(ljobs, chunks=nl)
+    nlive = 0
+    nsplit = {}
+    for i, r in enumerate(lres):
+        if not r["ok"]:
+            raise RuntimeError(r["err"] + r.get("tb", ""))
+        for (proto, sel, q, mode, data), o in zip(lmeta[i::nl], r["res"]["results"]):
+            nlive += 1
+            chk.count(("live-query", proto, sel, q, mode), nontrivial=True)
+            out = o["out"].encode("latin-1")
+            want = q.encode("utf-8", "surrogateescape").hex().encode()
+            m = re.search(rb"Q=([0-9a-f]*|NONE)", out)
+            got = m.group(1) if m else None
+            if got != want:
+                found = True
+                nsplit[proto] = nsplit.get(proto, 0) + 1
+                if nsplit[proto] > 3:
+                    continue
+                chk.violation({"what": "over a real socket a search string does not reach the handler as the same string when the "
+                                       "request arrives in pieces", "protocol": proto, "handler_selector": sel, "query": q,
+                               "delivery": mode, "pieces_latin1": [gen.lat(x) for x in cuts(data)[mode]][:12],
+                               "query_bytes_hex": want.decode()[:200], "handler_saw_hex": got.decode()[:200] if got else None,
+                               "client_error": o["exc"], "response_latin1": o["out"][:300]},
+                              tag=f"query-differs-split:{proto}:{'whole' if mode == 'whole' else 'pieces'}")
+
     # Gemini's two-step input dance: prompt, then redirect to selector?query
     greqs = [{"data": gen.lat(b"gemini://gopher.example/GEMINI-QUERY/echo.pyg\r\n"), "tls": True},
              {"data": gen.lat(b"gemini://gopher.example/GEMINI-QUERY/echo.pyg?a%20b%AE\r\n"), "tls": True}]
@@ -294,16 +424,24 @@ def run(tier):
     chk.sample({"kind": "listing", "selector": "/", "gopher_view": repr(pgsite.view_page("gopher", [p for p in all_pages[0] if p["proto"] == "gopher"][0]["out"].encode("latin-1"))[:400])})
     chk.sample({"kind": "query", "protocol": meta[3][0], "query": meta[3][2]})
     chk.coverage["oracle"] = {"trees": ntrees, "directory_pages": ndirs, "documents": ndocs, "trailing_slash_pairs": nslash,
-                              "query_submissions": nq}
+                              "query_submissions": nq,
+                              "gopherplus_request_forms": nforms, "gopherplus_item_descriptors": nbang, "live_socket_query_submissions": nlive}
     chk.coverage["rule"] = ("every directory of each generated tree viewed through all 9 protocol variants, canonical (kind,name,target) "
                             "sequences compared with plain Gopher's; MIME type and body of every document compared across protocols; "
+                            "the Gopher+ view taken in every request form (+, $, $ with attribute lists) and the item descriptor (!) of "
+                            "every listed local item; links to other servers (other host and/or port) with selectors of every shape, "
+                            "targets compared as (host, port, type, selector) after parsing gopher:// URLs back (RFC 4266); "
                             "directory selectors with and without trailing slash; search strings (ASCII, UTF-8, non-UTF-8 bytes, URL "
-                            "metacharacters) submitted through each protocol's own mechanism to a PYG and a CGI echo handler")
+                            "metacharacters) submitted through each protocol's own mechanism to a PYG and a CGI echo handler, in-process and over "
+                            "real sockets to the real ThreadingTCPServer with the request delivered whole, cut in two or three, cut after "
+                            "the request line, cut inside what follows it, and byte by byte")
     # ---- K: the Coq renderers / readers against the real code (harness/k06.py) ----
     kmism, kerr, kdetails = run_k06(chk, tier)
     found = found or bool(kdetails.get("oracle_hits"))  # run_k06 carries two implementation-level rules of its own
     if kmism or kerr:
         chk.correspondence_broken("K06 (renderers, directory walk, client-side readers: Model/RenderUrl.v, Model/ClientView.v)",
                                   {"mismatches": kmism[:10], "error": kerr, "counts": kdetails}, found)
+    chk.assumptions += ["search strings submitted in the two-field form of plain Gopher do not begin with + $ or ! (such a field is a "
+                        "Gopher+ command by the definition of Gopher+); every other protocol form carries any string"]
     chk.finish_proofs(found)
     return chk.finish("proof")
